@@ -186,6 +186,9 @@ func checkC14(c *Ctx) {
 	if base == nil || len(progs) < 2 {
 		return
 	}
+	// --- C14.selector
+	c.Clauses = append(c.Clauses, "C14.selector: every value whose set of possible values is derivable and that reaches the selector of crypto/subtle.ConstantTimeCopy / ConstantTimeSelect - directly, or through the conditional move / negate helpers that forward it (the assembly back-ends accept any non-zero flag there) - lies in {0,1}")
+	checkSelectors(c, progs)
 	// --- C14.api
 	for _, n := range cfgs[1:] {
 		other := progs[n]
